@@ -35,6 +35,12 @@ REQUIRED = ["mon:reused-object-equals-fresh-object", "mon:weights-equal-area-fra
 
 def gen_boundary(rng):
     k = int(rng.integers(3, 13))
+    if rng.random() < 0.06:
+        # a densely digitised outline (traced from a site map): hundreds of points on a rounded curve
+        k = int(rng.choice([120, 250, 400]))
+        ang = np.linspace(0, 2 * np.pi, k, endpoint=False) + rng.uniform(0, 1)
+        pts = np.c_[np.cos(ang), np.sin(ang)] * np.array([1.0, float(rng.uniform(0.5, 1.5))])
+        return pts[rng.permutation(k)], k
     ang = np.sort(rng.uniform(0, 2 * np.pi, k))
     if np.max(np.diff(np.concatenate([ang, [ang[0] + 2 * np.pi]]))) > 2.6:      # avoid slivers
         ang = np.linspace(0, 2 * np.pi, k, endpoint=False) + rng.uniform(0, 1)
